@@ -15,6 +15,8 @@ def scenarios(seed, tier, failed):
     for k, sc in enumerate(ld_schedules.scenarios(seed, tier)):
         if k < (40 if tier == 'quick' else 1500):
             yield sc
+    for cap in (1, 3, 4):
+        yield {'kind': 'subclass-capacity', 'cap': cap}
     # exhaustive short histories on capacity 2, then random longer ones on capacity 2..4
     for n in range(1, 6):
         for ops in itertools.product(OPS[:6], repeat=n):
@@ -31,6 +33,21 @@ def run(sc):
         return ok, detail, 'LockingDeque.append'
     from miros.hsm import HsmWithQueues
     from miros.activeobject import LockingDeque
+    if sc.get('kind') == 'subclass-capacity':
+        from miros.event import Event
+        Small = type('Small', (HsmWithQueues,), {'QUEUE_SIZE': sc['cap']})
+        ch = Small()
+        for i in range(sc['cap'] + 2):
+            (ch.post_fifo if i % 2 else ch.post_lifo)(Event(signal='C16_E%d' % i))
+            if len(ch.queue) > sc['cap']:
+                return False, 'a chart class with QUEUE_SIZE=%d holds %d pending events' % (sc['cap'], len(ch.queue)), \
+                    'HsmWithQueues.__init__'
+        for i in range(sc['cap'] + 2):
+            ch.defer(Event(signal='C16_D%d' % i))
+        if len(ch.defer_queue) > sc['cap']:
+            return False, 'a chart class with QUEUE_SIZE=%d holds %d deferred events' % (sc['cap'], len(ch.defer_queue)), \
+                'HsmWithQueues.__init__'
+        return True, ''
     M = sc['M']
     old = HsmWithQueues.QUEUE_SIZE
     HsmWithQueues.QUEUE_SIZE = M
